@@ -24,6 +24,21 @@ one of four classes:
 
 `Pko.Props.C19.census_classified` states `census = expectedSites`: a new, removed or moved
 potential panic site in the scanned packages breaks that theorem until it is classified here.
+
+Besides `panic` / `assert` / `index` / `slice` the census lists the three syntactic ingredients of
+"assignment to entry in nil map":
+* `nilmap`   – a SOURCE: a map variable assigned the literal `nil` or declared without a value;
+* `mapwrite` – a SINK in PKO code: `m[k] = v` (also `op=`, `++`) where `m` is not a local variable
+               that only ever holds `make(…)` / a composite literal (parameters, fields, call
+               results, variables also assigned otherwise, variables whose address is taken);
+* `mapsink`  – a possibly-nil map (same rule) handed to a function or method of a package outside
+               the repository and the standard library, which may write into it in place — the
+               census cannot look into third-party code, so every such call is listed
+               (apiextensions `defaulting.Default` in `AdmitPackageConfiguration` is the one that
+               writes; it is `modelled` by `Pko.Model.TreeConfig.admitConfig`).
+What the census still cannot express: a nil map that travels through PKO's own calls (the return
+value of `(*Tree).getConfig` reaching `AdmitPackageConfiguration`) — that flow is covered by the model
+(`Pko.Props.C19.getConfig_ok_nonnil`) and by the correspondence stream `cli`, not by the census.
 The classification describes the tree WITH findings/C19-a, C19-b, C19-c, C19-e applied (the four
 assertions of updateStatusConditionsFromOwnedObject and `item.Destination[0]` are gone).
 -/
@@ -68,6 +83,15 @@ def rangeIdx : String :=
 def sortIdx : String :=
   "indices come from sort.Sort / sort.Slice, which only passes 0 <= i,j < Len()"
 
+def nilChecked : String :=
+  "the map is tested for nil and allocated directly above the write (`if m == nil { m = map[…]…{} }`)"
+def setterStores : String :=
+  "SetLabels / SetAnnotations of metav1.Object / unstructured.Unstructured only STORE the map (nil = none), they do not write entries"
+def nestedRead : String :=
+  "apimachinery unstructured.Nested* accessors only read (a nil map yields found = false)"
+def mergeStores : String :=
+  "labels.Merge only reads its arguments and allocates its result; SetLabels / SetAnnotations only store the map"
+
 def expected : List Entry := [
   ⟨"internal/adapters/objectdeployment.go", "NewClusterObjectDeployment", "assert", 1,
     .startupOnly schemeOnly⟩,
@@ -77,6 +101,8 @@ def expected : List Entry := [
     .startupOnly schemeOnly⟩,
   ⟨"internal/adapters/objectdeployment.go", "NewObjectDeployment", "panic", 1,
     .startupOnly schemeOnly⟩,
+  ⟨"internal/adapters/objectset.go", "ClusterObjectSetAdapter.SetPausedByParent", "mapwrite", 1,
+    .guarded nilChecked⟩,
   ⟨"internal/adapters/objectset.go", "ClusterObjectSetAdapter.SetPreviousRevisions", "index", 2,
     .guarded rangeIdx⟩,
   ⟨"internal/adapters/objectset.go", "NewClusterObjectSet", "assert", 1,
@@ -87,6 +113,8 @@ def expected : List Entry := [
     .startupOnly schemeOnly⟩,
   ⟨"internal/adapters/objectset.go", "NewObjectSet", "panic", 1,
     .startupOnly schemeOnly⟩,
+  ⟨"internal/adapters/objectset.go", "ObjectSetAdapter.SetPausedByParent", "mapwrite", 1,
+    .guarded nilChecked⟩,
   ⟨"internal/adapters/objectset.go", "ObjectSetAdapter.SetPreviousRevisions", "index", 2,
     .guarded rangeIdx⟩,
   ⟨"internal/adapters/objectsetlist.go", "ClusterObjectSetList.GetItems", "index", 2,
@@ -139,6 +167,8 @@ def expected : List Entry := [
     .startupOnly schemeOnly⟩,
   ⟨"internal/cmd/client.go", "ObjectDeployment.CurrentRevision", "assert", 1,
     .guarded "kubectl-package client wrapper: obj was stored by the wrapper's own constructor from a typed Get (ObjectDeployment or ClusterObjectDeployment); the Cluster variant is tested first"⟩,
+  ⟨"internal/cmd/client.go", "ObjectDeployment.ObjectSets", "mapsink", 1,
+    .guarded "labels.SelectorFromSet only ranges over the label set (a nil set selects everything)"⟩,
   ⟨"internal/cmd/client.go", "ObjectSet.Revision", "assert", 1,
     .guarded "kubectl-package client wrapper: obj comes from a typed (Cluster)ObjectSetList item; the Cluster variant is tested first"⟩,
   ⟨"internal/cmd/client.go", "ObjectSet.getConditions", "assert", 1,
@@ -151,6 +181,10 @@ def expected : List Entry := [
     .guarded rangeIdx⟩,
   ⟨"internal/cmd/kickstart/kickstart.go", "Kickstarter.getInput", "panic", 1,
     .guarded "CLI only (kubectl package kickstart): deferred panic when closing an HTTP response body fails; no package content or cluster object state involved"⟩,
+  ⟨"internal/cmd/pause.go", "Client.PackageSetPaused", "mapsink", 2,
+    .guarded setterStores⟩,
+  ⟨"internal/cmd/pause.go", "Client.PackageSetPaused", "mapwrite", 1,
+    .guarded nilChecked⟩,
   ⟨"internal/cmd/pause.go", "Client.PackageSetPaused", "panic", 1,
     .guarded "CLI only: kind is a literal chosen by the two cobra sub-commands (\"package\" / \"clusterpackage\"), never user data"⟩,
   ⟨"internal/cmd/tree.go", "Tree.getConfig", "index", 1,
@@ -159,14 +193,20 @@ def expected : List Entry := [
     .guarded "Template[0] in the switch case `len(pkg.Manifest.Test.Template) > 0`"⟩,
   ⟨"internal/cmd/update.go", "Update.GenerateLockData", "index", 1,
     .guarded rangeIdx⟩,
+  ⟨"internal/controllers/controllers.go", "AddDynamicCacheLabel", "mapsink", 1,
+    .guarded setterStores⟩,
+  ⟨"internal/controllers/controllers.go", "AddDynamicCacheLabel", "mapwrite", 1,
+    .guarded nilChecked⟩,
+  ⟨"internal/controllers/controllers.go", "RemoveDynamicCacheLabel", "mapsink", 1,
+    .guarded (setterStores ++ "; the preceding delete(labels, k) is fine on a nil map")⟩,
   ⟨"internal/controllers/hostedclusters/hypershift/v1beta1/zz_generated.deepcopy.go", "HostedClusterList.DeepCopyInto", "index", 2,
     .guarded ("generated deepcopy: " ++ rangeIdx)⟩,
   ⟨"internal/controllers/hostedclusters/hypershift/v1beta1/zz_generated.deepcopy.go", "HostedClusterStatus.DeepCopyInto", "index", 2,
     .guarded ("generated deepcopy: " ++ rangeIdx)⟩,
-  ⟨"internal/controllers/objectdeployments/adapter_objectset.go", "defaultObjectSetGetter.getObjects", "index", 2,
-    .guarded rangeIdx⟩,
   ⟨"internal/controllers/objectdeployments/adapter_objectset.go", "newObjectSetGetter", "panic", 1,
     .startupOnly "type switch over the ObjectSetAccessor implementations; the controllers only construct ObjectSetAdapter / ClusterObjectSetAdapter through the factory chosen at start-up"⟩,
+  ⟨"internal/controllers/objectdeployments/adapter_objectset.go", "objectIdentifiers", "index", 2,
+    .guarded rangeIdx⟩,
   ⟨"internal/controllers/objectdeployments/adapter_objectset.go", "objectSetGetterMock.getActivelyReconciledObjects", "assert", 1,
     .guarded "test double (testify mock) living in a non-test file; only constructed for *adaptermocks.ObjectSetMock"⟩,
   ⟨"internal/controllers/objectdeployments/adapter_objectset.go", "objectSetGetterMock.getObjects", "assert", 1,
@@ -181,6 +221,10 @@ def expected : List Entry := [
     .guarded "allObjectSets[:j] with 0 <= j < len"⟩,
   ⟨"internal/controllers/objectdeployments/new_revision_reconciler.go", "latestRevisionNumber", "index", 1,
     .guarded "prevObjectSets[len-1] after `if len(prevObjectSets) == 0 { return 0 }`"⟩,
+  ⟨"internal/controllers/objectdeployments/new_revision_reconciler.go", "newRevisionReconciler.newObjectSetFromDeployment", "mapsink", 2,
+    .guarded setterStores⟩,
+  ⟨"internal/controllers/objectdeployments/new_revision_reconciler.go", "newRevisionReconciler.newObjectSetFromDeployment", "mapwrite", 2,
+    .guarded "GetLabels()[k] / GetAnnotations()[k] directly below `if Get…() == nil { Set…(map[string]string{}) }` on a typed (Cluster)ObjectSet, whose getter returns the stored map"⟩,
   ⟨"internal/controllers/objectdeployments/objectset_reconciler.go", "objectSetReconciler.Reconcile", "index", 1,
     .guarded "objectSets[len-1] under `if len(objectSets) > 0`"⟩,
   ⟨"internal/controllers/objectdeployments/objectset_reconciler.go", "objectSetReconciler.Reconcile", "slice", 1,
@@ -195,6 +239,10 @@ def expected : List Entry := [
     .startupOnly schemeOnly⟩,
   ⟨"internal/controllers/objectsetphases/objectsetphase_adapter.go", "newGenericObjectSetPhase", "panic", 1,
     .startupOnly schemeOnly⟩,
+  ⟨"internal/controllers/objectsets/adapter_objectsetphase.go", "GenericClusterObjectSetPhase.SetPhase", "mapwrite", 1,
+    .guarded nilChecked⟩,
+  ⟨"internal/controllers/objectsets/adapter_objectsetphase.go", "GenericObjectSetPhase.SetPhase", "mapwrite", 1,
+    .guarded nilChecked⟩,
   ⟨"internal/controllers/objectsets/adapter_objectsetphase.go", "newGenericClusterObjectSetPhase", "assert", 1,
     .startupOnly schemeOnly⟩,
   ⟨"internal/controllers/objectsets/adapter_objectsetphase.go", "newGenericClusterObjectSetPhase", "panic", 1,
@@ -211,14 +259,40 @@ def expected : List Entry := [
     .guarded rangeIdx⟩,
   ⟨"internal/controllers/objectsets/remotephase_reconciler.go", "objectSetRemotePhaseReconciler.Reconcile", "panic", 1,
     .guarded "json.Marshal of a literal map[string]any holding one string and one bool cannot fail"⟩,
+  ⟨"internal/controllers/objectsets/remotephase_reconciler.go", "objectSetRemotePhaseReconciler.desiredObjectSetPhase", "mapsink", 2,
+    .guarded setterStores⟩,
   ⟨"internal/controllers/objecttemplate/template_reconciler.go", "RelaxedJSONPathExpression", "index", 3,
     .modelled "Pko.Model.Panic.relaxedFrom (submatches[1] twice, submatches[2]; behind len(submatches) != 3)"⟩,
   ⟨"internal/controllers/objecttemplate/template_reconciler.go", "copySourceItem", "index", 1,
     .modelled "Pko.Model.Panic.copyTail (vslice[0] behind len(vslice) == 1)"⟩,
+  ⟨"internal/controllers/objecttemplate/template_reconciler.go", "copySourceItem", "mapsink", 2,
+    .guarded "jsonpath Execute(&buf, sourceObj.Object) only reads; unstructured.SetNestedField(sourcesConfig, …) WRITES into sourcesConfig: the only caller chain (templateReconciler.Reconcile -> getValuesFromSources) passes a fresh `map[string]any{}` (Pko.Model.Panic.setNested models the write on an allocated map)"⟩,
+  ⟨"internal/controllers/objecttemplate/template_reconciler.go", "templateReconciler.Reconcile", "mapsink", 6,
+    .guarded mergeStores⟩,
+  ⟨"internal/controllers/objecttemplate/template_reconciler.go", "templateReconciler.templateObject", "mapsink", 2,
+    .guarded mergeStores⟩,
+  ⟨"internal/controllers/objecttemplate/template_reconciler.go", "updateStatusConditionsFromOwnedObject", "mapsink", 3,
+    .guarded nestedRead⟩,
   ⟨"internal/controllers/phase_reconciler.go", "PhaseReconciler.ReconcilePhase", "index", 2,
     .guarded rangeIdx⟩,
+  ⟨"internal/controllers/phase_reconciler.go", "PhaseReconciler.desiredObject", "mapsink", 1,
+    .guarded setterStores⟩,
+  ⟨"internal/controllers/phase_reconciler.go", "PhaseReconciler.desiredObject", "mapwrite", 3,
+    .guarded "labels is tested for nil and allocated (`if labels == nil { labels = map[string]string{} }`) before the three writes"⟩,
   ⟨"internal/controllers/phase_reconciler.go", "defaultAdoptionChecker.isControlledByPreviousRevision", "panic", 1,
     .startupOnly "apiutil.GVKForObject(prev.ClientObject(), scheme) on a typed (Cluster)ObjectSet created by PKO's own factory: fails only if the kind is missing from the compiled-in scheme"⟩,
+  ⟨"internal/controllers/phase_reconciler.go", "defaultPatcher.Patch", "mapsink", 1,
+    .guarded "unstructured.RemoveNestedField(patch.Object, \"status\") only deletes (fine on a nil map); patch is a DeepCopy of the desired object"⟩,
+  ⟨"internal/controllers/phase_reconciler.go", "defaultPatcher.fixFieldManagers", "mapsink", 1,
+    .guarded "oldFieldOwners is a package-level sets.New(…) (allocated at init) that csaupgrade only reads"⟩,
+  ⟨"internal/controllers/phase_reconciler.go", "mapConditions", "mapsink", 1,
+    .guarded nestedRead⟩,
+  ⟨"internal/controllers/phase_reconciler.go", "mergeKeysFrom", "mapwrite", 1,
+    .guarded nilChecked⟩,
+  ⟨"internal/controllers/phase_reconciler.go", "setObjectRevision", "mapsink", 1,
+    .guarded setterStores⟩,
+  ⟨"internal/controllers/phase_reconciler.go", "setObjectRevision", "mapwrite", 1,
+    .guarded nilChecked⟩,
   ⟨"internal/controllers/previous_revision_lookup.go", "PreviousRevisionLookup.Lookup", "index", 1,
     .guarded rangeIdx⟩,
   ⟨"internal/packages/internal/packagedeploy/adapter_objectsetlist.go", "GenericClusterObjectSetList.GetItems", "index", 2,
@@ -237,16 +311,30 @@ def expected : List Entry := [
     .guarded rangeIdx⟩,
   ⟨"internal/packages/internal/packagedeploy/deployment_reconciler.go", "DeploymentReconciler.Reconcile", "index", 1,
     .guarded rangeIdx⟩,
+  ⟨"internal/packages/internal/packagedeploy/deployment_reconciler.go", "DeploymentReconciler.Reconcile", "mapsink", 6,
+    .guarded mergeStores⟩,
+  ⟨"internal/packages/internal/packagedeploy/deployment_reconciler.go", "DeploymentReconciler.Reconcile", "mapwrite", 1,
+    .guarded "annotations is the result of labels.Merge, which always returns a freshly allocated labels.Set"⟩,
   ⟨"internal/packages/internal/packagedeploy/deployment_reconciler.go", "DeploymentReconciler.chunkPhase", "index", 1,
     .guarded rangeIdx⟩,
+  ⟨"internal/packages/internal/packageimport/fs.go", "walker", "mapwrite", 1,
+    .guarded "files is the `packagetypes.Files{}` its only caller FromFS allocates on the line before"⟩,
+  ⟨"internal/packages/internal/packageimport/kubekeychain/kubekeychain.go", "newFromPullSecrets", "mapwrite", 1,
+    .guarded "keyring.creds is allocated with make(…) in the composite literal that creates keyring in the same function"⟩,
   ⟨"internal/packages/internal/packageimport/kubekeychain/kubekeychain.go", "newFromPullSecrets", "slice", 1,
     .guarded "effectivePath[3:] only after strings.HasPrefix(effectivePath, \"/v2/\") or \"/v1/\" (length >= 4)"⟩,
   ⟨"internal/packages/internal/packageimport/kubekeychain/kubekeychain.go", "toAuthenticator", "index", 1,
     .guarded "configs[0]: the only caller returns authn.Anonymous before when len(auths) == 0"⟩,
   ⟨"internal/packages/internal/packageimport/kubekeychain/kubekeychain.go", "urlsMatch", "index", 1,
     .guarded "targetURLParts[k] with k ranging over globURLParts after `len(globURLParts) != len(targetURLParts)` returned"⟩,
+  ⟨"internal/packages/internal/packageimport/request_manager.go", "RequestManager.handleRequest", "mapwrite", 1,
+    .guarded "r.inFlight is allocated with make(…) by the only constructor NewRequestManager"⟩,
+  ⟨"internal/packages/internal/packagemanifestvalidation/configuration.go", "AdmitPackageConfiguration", "mapsink", 2,
+    .modelled "Pko.Model.TreeConfig.admitConfig: pruning.Prune(configuration, …) only reads and deletes; defaulting.Default(configuration, s) WRITES `x[k] = default` for every top-level property with a default whose key is missing = the panic branch of `admitConfig` on the nil map (assignment to entry in nil map).  Callers: (*Tree).RenderPackage passes the result of getConfig, proved allocated (Pko.Props.C19.getConfig_ok_nonnil, no_panic_treeRenderPackage; exercised by stream cli); TemplateTestValidator.runTestCase and PackageDeployer.Deploy pass `map[string]any{}` + json.Unmarshal(Raw, &m) under `Config != nil` (read from the code: Raw of a decoded *runtime.RawExtension is never the literal null, the only input for which encoding/json resets a map to nil)"⟩,
   ⟨"internal/packages/internal/packagemanifestvalidation/manifest.go", "ValidatePackageManifest", "panic", 1,
     .guarded "panic(err) on an error of ValidatePackageConfiguration = apiextensions ConvertJSONSchemaProps of spec.config.openAPIV3Schema; only reached when validatePackageManifestConfig reported no error for that schema (`len(configErrors) == 0`). NOT PROVED: relies on the apiextensions CRD-schema validation rejecting everything the converter rejects; exercised by the exploration stream `structure`"⟩,
+  ⟨"internal/packages/internal/packagemanifestvalidation/private.go", "validatePackageConfigurationBySchema", "mapsink", 1,
+    .guarded "apiextensions validation.ValidateCustomResource only reads the configuration (a nil map validates like an empty object)"⟩,
   ⟨"internal/packages/internal/packagemanifestvalidation/private.go", "validateSchemaStuffWithXPrefixedName", "index", 2,
     .guarded "copied apiextensions validation code: i ranges over the compilation results, one per schema.XValidations entry"⟩,
   ⟨"internal/packages/internal/packagemanifestvalidation/private.go", "validatorAdapter.Validate", "panic", 1,
@@ -254,24 +342,50 @@ def expected : List Entry := [
   ⟨"internal/packages/internal/packagerender/celctx/cel.go", "CelCtx.evaluate", "assert", 1,
     .checkedGuard "out.Value().(bool)" "unless !reflect.DeepEqual(out.Type(), cel.BoolType)"
       "out is the ref.Val the program evaluated to; control reaches the assertion only when its RUN-TIME type is cel.BoolType, and a cel-go value of BoolType is types.Bool, whose Value() is a Go bool.  A check of the STATIC output type of the AST would not do: every template-context variable is declared map(string, any), so `config.x` has static type dyn and any run-time type (exercised by the render stream's dyn-typed CEL conditions)"⟩,
+  ⟨"internal/packages/internal/packagerender/celctx/cel.go", "newCelCtx", "mapwrite", 1,
+    .guarded "ctxMap comes from unpackContext = structToMap(tmplCtx): the JSON round trip of the STRUCT PackageRenderContext is always a JSON object, which json.Unmarshal decodes into an allocated map (an error returns before)"⟩,
+  ⟨"internal/packages/internal/packagerender/celctx/cel.go", "structToMap", "nilmap", 1,
+    .guarded "`var result map[string]any` is filled by json.Unmarshal(data, &result) where data is json.Marshal of a struct value (a JSON object, never null): allocated on return unless err != nil; see newCelCtx"⟩,
   ⟨"internal/packages/internal/packagerender/conditionmap.go", "parseConditionMapAnnotation", "index", 5,
     .modelled "Pko.Model.Panic.parseParts (parts[0], parts[1] twice each) and Pko.Model.Panic.parseLines (outputMappings[i])"⟩,
+  ⟨"internal/packages/internal/packagerender/objects.go", "RenderObjects", "mapwrite", 1,
+    .guarded "pathObject is a named result allocated on the first line of the function"⟩,
   ⟨"internal/packages/internal/packagerender/objects.go", "RenderObjectsWithFilter", "index", 3,
     .guarded "paths[i] with i counting the keys of the map paths was sized from; paths[i], paths[j] inside the sort.Slice callback"⟩,
+  ⟨"internal/packages/internal/packagerender/objects.go", "filterWithCEL", "mapwrite", 3,
+    .guarded "pathFilteredIndex is a named result allocated before the loop; pathObjectMap is only written for keys obtained by ranging over it (a nil map has none)"⟩,
+  ⟨"internal/packages/internal/packagerender/objects.go", "parseObjects", "mapsink", 3,
+    .guarded mergeStores⟩,
   ⟨"internal/packages/internal/packagerender/objectsettemplate.go", "phaseCollector.AddObjects", "index", 1,
     .guarded ("&objs[i]: " ++ rangeIdx)⟩,
+  ⟨"internal/packages/internal/packagerender/objectsettemplate.go", "phaseCollector.AddObjects", "mapsink", 1,
+    .guarded setterStores⟩,
+  ⟨"internal/packages/internal/packagerender/objectsettemplate.go", "phaseCollector.AddObjects", "nilmap", 1,
+    .guarded "deliberate: empty annotations are replaced by nil for semantic equality; afterwards the map is only handed to SetAnnotations, which stores it"⟩,
   ⟨"internal/packages/internal/packagerender/objectsettemplate.go", "phaseCollector.AddObjects", "panic", 1,
     .modelled "Pko.Model.Panic.addObjects (explicit panic on a condition-map parse error; unreachable behind Pko.Model.Panic.renderGate, the check added to parseObjects by fix C19-c)"⟩,
   ⟨"internal/packages/internal/packagerender/objectsettemplate.go", "phaseCollector.Collect", "index", 3,
     .guarded "entries[i], entries[j] inside the sort.Slice callback; phases[i] with phases := make(…, len(entries)) and i ranging over entries"⟩,
+  ⟨"internal/packages/internal/packagerender/objectsettemplate.go", "phaseCollector.addObjects", "mapwrite", 1,
+    .guarded "the receiver is only created by newPhaseCollector (make(phaseCollector)); the write is behind a successful lookup `entry, ok := c[phaseName]`, impossible on a nil map"⟩,
+  ⟨"internal/packages/internal/packagerender/template.go", "RenderTemplates", "mapwrite", 1,
+    .guarded "pkg.Files[path] only for paths collected by ranging over pkg.Files itself (rendered is filled inside `for path, content := range pkg.Files`), so the map is non-nil whenever the loop body runs"⟩,
   ⟨"internal/packages/internal/packagerender/template.go", "workaroundnovalue", "assert", 2,
     .guarded "actualCtx is the JSON round trip of the Go struct PackageRenderContext: \"package\" and \"package.metadata\" are struct fields without omitempty, hence always JSON objects"⟩,
+  ⟨"internal/packages/internal/packagerender/template.go", "workaroundnovalue", "mapwrite", 2,
+    .guarded "metadata is the result of the type assertion .(map[string]any) on a decoded JSON object (see the assert entry of this function): json.Unmarshal allocates object maps"⟩,
   ⟨"internal/packages/internal/packagestructure/conversion.go", "ManifestFromFile", "index", 3,
     .guarded ("gvks[0]: scheme.ObjectKinds returns an error instead of an empty list; versions[i]/groupVersions[i]: " ++ rangeIdx)⟩,
   ⟨"internal/packages/internal/packagestructure/default.go", "init", "panic", 1,
     .startupOnly "package init: AddToScheme of PKO's own API groups"⟩,
+  ⟨"internal/packages/internal/packagestructure/structure.go", "StructuralLoader.LoadComponent", "nilmap", 1,
+    .guarded "`var cFiles packagetypes.Files` is assigned in both branches of the if/else that follows (rootFiles / componentFiles, which allocate) and only read afterwards"⟩,
   ⟨"internal/packages/internal/packagestructure/structure.go", "StructuralLoader.load", "index", 1,
     .guarded "parts[1] of strings.SplitN(path, \"/\", 3) after `len(parts) == 2` and `len(parts) < 3` both returned errors"⟩,
+  ⟨"internal/packages/internal/packagestructure/structure.go", "StructuralLoader.load", "mapwrite", 1,
+    .guarded "componentFiles is a composite literal of the function (grouped var declaration) and componentFiles[componentName] is allocated two lines above when missing"⟩,
+  ⟨"internal/packages/internal/packagevalidation/objectvalidation.go", "ObjectLabelsValidator.validate", "mapsink", 1,
+    .guarded "apimachinery validation.ValidateLabels only ranges over the labels"⟩,
   ⟨"internal/preflight/dryrun.go", "DryRun.Check", "assert", 2,
     .guarded "obj.DeepCopyObject().(*unstructured.Unstructured) / .(client.Object): every caller (PhaseReconciler via CheckAllInPhase, objecttemplate reconciler) passes *unstructured.Unstructured, whose DeepCopyObject returns the same type"⟩,
   ⟨"internal/preflight/preflight.go", "CheckAll", "assert", 1,
@@ -293,8 +407,16 @@ def expected : List Entry := [
     .guarded "default branch of a type switch over name.Reference after name.ParseReference succeeded: go-containerregistry only returns name.Tag or name.Digest"⟩,
   ⟨"pkg/probing/cel.go", "CELProbe.probe", "assert", 1,
     .guarded "val.Value().(bool): NewCELProbe rejects every rule whose checked output type is not cel.BoolType, and evaluation errors return before"⟩,
+  ⟨"pkg/probing/condition.go", "ConditionProbe.probe", "mapsink", 2,
+    .guarded nestedRead⟩,
+  ⟨"pkg/probing/fieldsequal.go", "FieldsEqualProbe.probe", "mapsink", 2,
+    .guarded nestedRead⟩,
+  ⟨"pkg/probing/observedgeneration.go", "ObservedGenerationProbe.Probe", "mapsink", 1,
+    .guarded nestedRead⟩,
   ⟨"pkg/probing/probe.go", "toUnstructured", "panic", 1,
-    .guarded "only for typed objects: PKO probes *unstructured.Unstructured, for which probeUnstructured* take the fast path; DefaultUnstructuredConverter fails only for non-JSON-serialisable Go values"⟩
+    .guarded "only for typed objects: PKO probes *unstructured.Unstructured, for which probeUnstructured* take the fast path; DefaultUnstructuredConverter fails only for non-JSON-serialisable Go values"⟩,
+  ⟨"pkg/probing/selectors.go", "LabelSelector.Probe", "mapsink", 1,
+    .guarded "labels.Selector.Matches only reads the label set"⟩
 ]
 
 def expectedSites : List (String × String × String) := expected.flatMap Entry.sites
@@ -304,12 +426,14 @@ def guardedFns : List (String × String) := expected.flatMap Entry.guardFn
 def expectedGuardRows : List (String × String × String × String) := expected.flatMap Entry.guardRows
 
 /-- Potential panic sites on the untrusted-input path that the SYNTACTIC census cannot see
-(nil-interface call, nil-map write, nil-pointer dereference), recorded by hand. -/
+(nil-interface call, nil-pointer dereference, a nil-map write inside third-party code), recorded by
+hand.  (The `copySourceItem` nil-map write that used to be listed here is now the census row
+`copySourceItem / mapsink`.) -/
 def nonSyntactic : List Entry := [
   ⟨"internal/packages/internal/packagedeploy/deployer.go", "validateUnique", "nil-interface-call", 2,
     .fixedElsewhere "C16 (finding C16-b = C19-d): NewClusterPackageDeployer leaves PackageDeployer.uncachedClient nil; validateConstraints -> validateUnique calls uncachedClient.List on it for a manifest with a uniqueInScope constraint"⟩,
-  ⟨"internal/controllers/objecttemplate/template_reconciler.go", "copySourceItem", "nil-map-write", 1,
-    .guarded "unstructured.SetNestedField writes into sourcesConfig; Reconcile always passes a fresh `map[string]any{}`"⟩,
+  ⟨"k8s.io/apiextensions-apiserver/pkg/apiserver/schema/defaulting/algorithm.go", "Default", "nil-map-write", 1,
+    .modelled "Pko.Model.TreeConfig.admitConfig: `x[k] = runtime.DeepCopyJSONValue(prop.Default.Object)` on the map PKO passes in (census row AdmitPackageConfiguration / mapsink); unreachable from `kubectl package tree` by Pko.Props.C19.no_panic_treeRenderPackage"⟩,
   ⟨"internal/packages/internal/packageimport/oci.go", "FromOCI", "nil-pointer-dereference", 1,
     .modelled "Pko.Model.Panic.fromOCI: hdr.Name after `tarReader.Next()` returned a non-EOF error (truncated / corrupted layer while a skipped entry's data is pending). Found by the exploration stream `import`, fixed by findings/C19-e (error return before hdr is used). The same pattern remains in internal/packages/internal/packagekickstart/olm.go (ImportOLMBundleImage, IsOLMBundleImage; CLI `kubectl package kickstart`, outside the scanned packages)"⟩
 ]
